@@ -2,7 +2,8 @@
 C12 — exported state re-imports and preserves what users rely on.
 Headline theorems (MT: the full statement holds; record / HTLC / oracle: the full statement is
 false in the code — negation by witness plus the strongest true partial statement; see the
-per-module sections and findings F-gen-1, F-gen-2, F-gen-3).
+per-module sections and findings F-gen-2, F-gen-3; F-gen-1 is fixed — the HTLC statement now holds,
+here for the mini-model of the timestamp rule and in `Props/C12_Htlc.lean` for the complete model).
 -/
 import Irismod.Proofs.MtGenesis
 import Irismod.Props.C15
@@ -220,41 +221,56 @@ theorem record_roundtrip_fails (hw : WitnessFacts) : ¬ RoundTripAll := by
 
 end record
 
-/-! ## HTLC (finding F-gen-1: creation accepts timestamp 0, genesis validation rejects it) -/
+/-! ## HTLC (finding F-gen-1, FIXED by 1f718dc: creation accepts timestamp 0, genesis validation used to reject it)
+
+The theorems of this section are about the mini-model of the timestamp rule (`Irismod.HtlcGenesis`);
+the round trip of the complete HTLC model — export validates, import succeeds outside the class
+F-gen-5, observational equality, fixpoint, invariants again — is in `Props/C12_Htlc.lean`. -/
 section htlc
 open Irismod.HtlcGenesis Irismod.Proofs.HtlcGenesis
 
 /-- the C12 statement for the HTLC timestamp/expiry rules: the export of every reachable store
-passes `ValidateGenesis`. FALSE in the code. -/
+passes `ValidateGenesis`.  TRUE since 1f718dc (`htlc_export_validates_mini`). -/
 def HtlcExportValidates : Prop :=
   ∀ (s0 : State) (ops : List Op), s0.htlcs = [] → 900 < s0.time →
     validateGenesis (exportGenesis (run s0 ops)) = true
 
-/-- **negation by witness**: one plain HTLC created without a timestamp (accepted by
-`CreateHTLC`: the timestamp of a non-transfer contract is never checked) -/
-theorem htlc_roundtrip_fails : ¬ HtlcExportValidates := by
+/-- the same statement for `ValidateGenesis` as it was before 1f718dc.  FALSE. -/
+def HtlcExportValidatedPre : Prop :=
+  ∀ (s0 : State) (ops : List Op), s0.htlcs = [] → 900 < s0.time →
+    validateGenesisPre (exportGenesis (run s0 ops)) = true
+
+/-- **the finding, kept for the record**: with the pre-1f718dc rule one plain HTLC created without a
+timestamp (accepted by `CreateHTLC`: the timestamp of a non-transfer contract is never checked)
+made the module's own export invalid -/
+theorem htlc_prefix_rule_failed : ¬ HtlcExportValidatedPre := by
   intro H
   have := H { time := 1700000000 } [.create "h1" 0 50 false] rfl (by decide)
   revert this
   decide
 
+/-- **regression example**: the same witness PASSES `ValidateGenesis` as it is now -/
+theorem htlc_gen1_regression :
+    validateGenesis (exportGenesis (run { time := 1700000000 } [.create "h1" 0 50 false])) = true := by
+  decide
+
 theorem htlc_inv_init (s0 : State) (h0 : s0.htlcs = []) (hc : 900 < s0.time) : Inv s0 :=
   ⟨by rw [h0]; simp [AMap.keys], by rw [h0]; intro e he; simp at he, by rw [h0]; intro e he; simp at he, hc⟩
 
-/-- **the true part**, excluded class explicit: if no open contract carries timestamp 0, the
-export of every reachable store validates (no duplicate id, all open, expiry ≠ 0, timestamp ≠ 0) -/
+/-- the strongest statement that was true BEFORE the fix, excluded class explicit: if no open
+contract carries timestamp 0, the export of every reachable store passed the old rule -/
 theorem htlc_validate_partial (s0 : State) (ops : List Op) (h0 : s0.htlcs = []) (hc : 900 < s0.time)
     (hts : ∀ e ∈ exportGenesis (run s0 ops), e.2.timestamp ≠ 0) :
-    validateGenesis (exportGenesis (run s0 ops)) = true := by
+    validateGenesisPre (exportGenesis (run s0 ops)) = true := by
   have hi := inv_run ops s0 (htlc_inv_init s0 h0 hc)
   apply validateWith_ok _ _ [] (nodup_export _ hi.nodup) (by intro k _; simp)
   intro e he
   obtain ⟨hm, ho⟩ := mem_export he
   refine ⟨ho, ?_⟩
-  simp only [validateContract, Bool.and_eq_true, decide_eq_true_eq]
+  simp only [validateContractPre, Bool.and_eq_true, decide_eq_true_eq]
   exact ⟨hi.exp e hm, hts e he⟩
 
-/-- with fixes/F-gen-1.diff (timestamp rule only for HTLTs) the export of every reachable store
+/-- with the rule of 1f718dc (timestamp only for HTLTs) the export of every reachable store
 validates: an HTLT's timestamp was checked against the clock at creation, so it is not 0 -/
 theorem htlc_fixed_validates (s0 : State) (ops : List Op) (h0 : s0.htlcs = []) (hc : 900 < s0.time) :
     validateGenesisFixed (exportGenesis (run s0 ops)) = true := by
@@ -269,6 +285,10 @@ theorem htlc_fixed_validates (s0 : State) (ops : List Op) (h0 : s0.htlcs = []) (
   cases htr : e.2.transfer with
   | false => exact Or.inl rfl
   | true => exact Or.inr (hi.htlt e hm htr)
+
+/-- **C12/htlc validation, mini-model, all reachable stores**: the full statement holds -/
+theorem htlc_export_validates_mini : HtlcExportValidates :=
+  fun s0 ops h0 hc => htlc_fixed_validates s0 ops h0 hc
 
 end htlc
 
